@@ -481,7 +481,11 @@ def write_evidence(ctx, level, coverage, assumptions, violations):
         "wall_s": round(time.time() - ctx.t0, 2),
         "violations": violations,
     }
-    path = os.path.join(VERIF, "evidence", ctx.prop + ".json")
+    # runs against another tree (mutants, seeded changes: VERIF_REPO) and replays must not overwrite the evidence
+    # of the registered check on /repo
+    sub = "evidence" if REPO == "/repo" and not getattr(ctx, "replaying", False) else os.path.join(".build", "evidence-other")
+    os.makedirs(os.path.join(VERIF, sub), exist_ok=True)
+    path = os.path.join(VERIF, sub, ctx.prop + ".json")
     tmp = path + ".tmp"
     with open(tmp, "w") as f:
         json.dump(ev, f, indent=1, sort_keys=True)
